@@ -30,7 +30,7 @@ Definition run_rcase (c : rcase) : Z :=
   match c with
   | CRun codes slots ng gl out ok errpos =>
       let s0 := init_globals gl (mkSt (repeat nilV (Z.to_nat ng)) [] [] []) in
-      match run (fun _ n => n) (Z.to_nat 400000) codes slots s0 with
+      match run (fun _ n => n) (fun _ _ _ => None) (fun _ _ _ _ => None) (fun _ _ => None) (fun _ _ _ => None) (fun _ _ _ _ => None) (Z.to_nat 400000) codes slots s0 with
       | RDone _ ops s => if ok && bytes_eq (VM.out s) out && (match ops with [] => true | _ => false end) then 0 else 1
       | RFail _ pos s => if negb ok && bytes_eq (VM.out s) out && (pos =? errpos) then 0 else 1
       | RStuck _ => 1
